@@ -90,6 +90,8 @@ pub struct Walker<'a> {
     pub fn_index: usize,
     /// inside a Tree arm of a ledger function: the variable holding the old bin pointer
     old_bin_var: Option<String>,
+    /// inside a `BinEntry::Moved` arm of a retry loop: a retry must go on with what help_transfer returned (C11)
+    in_moved_arm: bool,
 }
 
 fn struct_guard_field(idx: &SrcIndex, owner: &str) -> bool {
@@ -210,6 +212,7 @@ impl<'a> Walker<'a> {
             extra_guards: vec![],
             fn_index,
             old_bin_var: None,
+            in_moved_arm: false,
         }
     }
 
@@ -1211,6 +1214,10 @@ impl<'a> Walker<'a> {
                 None
             }
             syn::Expr::Assign(a) => {
+                if self.in_moved_arm && (toks(&*a.right).contains("help_transfer") || toks(&*a.right).contains("next_table")) && toks(&*a.left).contains("table") {
+                    // the retry goes on with the table the forwarding leads to
+                    out.push(Sk::Set { name: "g_moved_progress".into(), val: BVal::Lit(true) });
+                }
                 if let syn::Expr::Path(p) = &*a.left {
                     if let Some(i) = p.path.get_ident() {
                         let n = i.to_string();
@@ -1293,6 +1300,12 @@ impl<'a> Walker<'a> {
                     // (it is the value of a block) or retired, exactly once
                     let pat_s = toks(&a.pat).replace(' ', "");
                     let ledger_arm = self.cfg.old_bin_ledger.contains(&self.f.key) && pat_s.starts_with("BinEntry::Tree(");
+                    let moved_arm = pat_s == "BinEntry::Moved" && !self.loops.is_empty() && toks(&a.body).contains("continue");
+                    let saved_moved = self.in_moved_arm;
+                    if moved_arm {
+                        self.in_moved_arm = true;
+                        b.push(Sk::Decl { name: "g_moved_progress".into(), init: BVal::Lit(false) });
+                    }
                     let saved_obv = self.old_bin_var.clone();
                     if ledger_arm {
                         self.old_bin_var = leftmost_ident(&m.expr);
@@ -1315,6 +1328,7 @@ impl<'a> Walker<'a> {
                         b.push(Sk::Raw("assert(g_reuse || g_retired);   // OBL:C04:old_tree_bin_not_passed_on_is_retired".into()));
                     }
                     self.old_bin_var = saved_obv;
+                    self.in_moved_arm = saved_moved;
                     self.scopes.pop();
                     let c = match &cas_var {
                         Some(r) => Cond::Var(r.clone(), toks(&a.pat).starts_with("Err")),
@@ -1400,6 +1414,9 @@ impl<'a> Walker<'a> {
                     Some(li) => {
                         let (id, depth) = { let c = &self.loops[li]; (c.id, c.depth) };
                         self.exit_scopes(depth, out);
+                        if self.in_moved_arm {
+                            out.push(Sk::Raw("assert(g_moved_progress);   // OBL:C11:retry_after_a_forwarded_bin_continues_on_the_table_it_forwards_to".into()));
+                        }
                         out.push(Sk::Continue(id));
                     }
                     None => self.err("continue outside loop", c.span()),
